@@ -2,6 +2,7 @@
   C08 — StableStore is a durable map, isolated from the log.
 -/
 import RaftWal.Proofs.WalInv2
+import RaftWal.Proofs.CrashCorollaries
 namespace RaftWal.C08
 open RaftWal
 
@@ -33,5 +34,19 @@ theorem stable_isolated (w : Wal) (k : Bytes) (v : Option Bytes) :
     let w' := (w.setStable k v).1
     w'.segs = w.segs ∧ w'.files = w.files ∧ w'.nextID = w.nextID ∧ w'.closed = w.closed :=
   stable_ops_leave_log w k v
+
+/-! ## WAL level: the durability protocol (Model/Crash.lean — meta commits, file creation, rotation, truncation, Open,
+    tied to wal.go by the crash suite's action-by-action and image-by-image correspondence).  `Crash.QuiescentS` is
+    the invariant of a live process between calls; it holds after Open on an empty directory, after every completed
+    call and after every recovery (`Crash.init_quiescentS`, `Crash.call_refines_corrected`, `Crash.crash_safe_corrected`). -/
+
+/-- **the stable store across crashes**: after recovery it is the store before the call or after it, the one after it
+    once the call had returned; log calls never change it -/
+theorem stable_any_crash (d : Crash.Disk) (hq : Crash.Quiescent d) (op : Crash.Op) (hok : op.ok d) (k : Nat)
+    (c : Crash.CrashKind) (d1 d' : Crash.Disk) (hr : Crash.ReachRec (Crash.crashAfter d (Crash.prog d op) k c) d1)
+    (ho : Crash.openResult d1 = some d') :
+    (d'.md.stable = d.md.stable ∨ d'.md.stable = (d.applyAll (Crash.prog d op)).md.stable) ∧
+    (Crash.ackPos (Crash.prog d op) < k → d'.md.stable = (d.applyAll (Crash.prog d op)).md.stable) :=
+  Crash.stable_crash_safe d hq op hok k c d1 d' hr ho
 
 end RaftWal.C08
